@@ -389,6 +389,7 @@ type vRaftOpts struct {
 	preVote   bool        // force preVote on
 	remotes   bool        // symbolic flow-control state of ONE remote (the first non-self member) on a leader; the others are in Replicate state and active
 	transfer  bool        // symbolic leader transfer target on a leader
+	noReached bool        // do not add the pre-states reached by the real code (vReachedRaft)
 	allSelves bool        // every member id as the local replica even in the quick tier
 	pairs     [][2]uint64 // explicit (shape, local replica id) choices; overrides shapes
 }
@@ -470,6 +471,11 @@ func vRaft(o vRaftOpts) (*raft, vCluster) {
 		}
 	} else {
 		c.self = 9
+	}
+	if !o.noReached && !o.preVote && c.member && c.self == 1 && len(sh.voters) == 3 && len(sh.nonVotings) == 0 && len(sh.witnesses) == 0 {
+		if vBool("reachedState") {
+			return vReachedRaft(o, &c), c
+		}
 	}
 	l := vLog(o.log)
 	s := vSnapLog(l)
@@ -825,4 +831,101 @@ func vSenderTruthful(m *pb.Message, r *raft, post *vLogSnap, tag string) {
 			vAssert(m.LogIndex <= post.last(), tag+"G-ack-le-last")
 		}
 	}
+}
+
+// ---------------------------------------------------------------------------
+// pre-states reached by the real code
+//
+// A constructed pre-state (vRaft) fixes the fields the representation invariant
+// talks about.  Implementation state the invariant does not mention - a cache,
+// a flag carried from an earlier term - is at its zero value there.  So every
+// lemma is also checked from states the real code itself reached: replica 1 of
+// {1,2,3}, created by newRaft over the model store and driven through one of
+// the skeleton histories below with symbolic acknowledgements and term jumps;
+// every Update goes through GetUpdate / save / Commit / apply as the node does.
+//
+//   0 launched follower; 1 candidate; 2 leader, own-term entry not committed;
+//   3 leader after (optional proposal and) an acknowledgement from replica 2;
+//   4 deposed by a higher-term heartbeat; 5 candidate again; 6 re-elected,
+//   new own-term entry not committed; 7 re-elected and acknowledged.
+func vReachedRaft(o vRaftOpts, c *vCluster) *raft {
+	db := &vDB{}
+	db.members.Addresses = map[uint64]string{1: "a1", 2: "a2", 3: "a3"}
+	cfg := vConfig(1)
+	if o.flags {
+		cfg.CheckQuorum = vBool("checkQuorum")
+	}
+	r := newRaft(cfg, db)
+	p := Peer{raft: r}
+	p.prevState = r.raftState()
+	applied := uint64(0)
+	cycle := func() {
+		if !p.HasUpdate(true) {
+			return
+		}
+		ud, err := p.GetUpdate(true, applied)
+		vAssert(err == nil, "reached-get-update-ok")
+		if err := db.Append(ud.EntriesToSave); err != nil {
+			panic(err)
+		}
+		if !pb.IsEmptyState(ud.State) {
+			db.SetState(ud.State)
+		}
+		p.Commit(ud)
+		if n := len(ud.CommittedEntries); n > 0 {
+			applied = ud.CommittedEntries[n-1].Index
+			p.NotifyRaftLastApplied(applied)
+		}
+	}
+	step := func(m pb.Message) {
+		m.To = 1
+		if err := r.Handle(m); err != nil {
+			panic(err)
+		}
+		cycle()
+	}
+	h := vChoose("history", 8)
+	if h >= 1 {
+		step(pb.Message{Type: pb.Election, From: 1})
+	}
+	if h >= 2 {
+		step(pb.Message{Type: pb.RequestVoteResp, From: 2, Term: r.term})
+	}
+	if h >= 3 {
+		if vBool("proposed") {
+			step(pb.Message{Type: pb.Propose, From: 1, Entries: []pb.Entry{{Cmd: []byte{0x5a}}}})
+		}
+		ack := vU64("ack")
+		vAssume(ack >= 1 && ack <= r.log.lastIndex())
+		step(pb.Message{Type: pb.ReplicateResp, From: 2, Term: r.term, LogIndex: ack})
+	}
+	if h >= 4 {
+		bump := vU64("termjump")
+		vAssume(bump < 3)
+		step(pb.Message{Type: pb.Heartbeat, From: 3, Term: r.term + 1 + bump})
+	}
+	if h >= 5 {
+		step(pb.Message{Type: pb.Election, From: 1})
+	}
+	if h >= 6 {
+		step(pb.Message{Type: pb.RequestVoteResp, From: 2, Term: r.term})
+	}
+	if h >= 7 {
+		step(pb.Message{Type: pb.ReplicateResp, From: 3, Term: r.term, LogIndex: r.log.lastIndex()})
+	}
+	ok := o.roles == nil
+	for _, s := range o.roles {
+		if s == r.state {
+			ok = true
+		}
+	}
+	vAssume(ok)
+	if r.state == leader {
+		c.focus = 2
+	}
+	r.msgs = make([]pb.Message, 0)
+	r.droppedEntries = make([]pb.Entry, 0)
+	r.readyToRead = nil
+	r.droppedReadIndexes = nil
+	return r
 }
